@@ -1074,7 +1074,7 @@ func (ctx *RenderContext) EvaluateExpression(node Node) (interface{}, error) {
 			return 0, nil
 		case "-":
 			if num, ok := ctx.toNumber(operand); ok {
-				return -num, nil
+				return positiveZero(-num), nil
 			}
 			return 0, nil
 		default:
@@ -1084,6 +1084,16 @@ func (ctx *RenderContext) EvaluateExpression(node Node) (interface{}, error) {
 	default:
 		return nil, fmt.Errorf("unsupported expression type: %T", node)
 	}
+}
+
+// positiveZero turns the floating-point negative zero that arithmetic on
+// numbers can produce (-1 * 0, -0, 0 / -1) into plain zero, which would
+// otherwise print as "-0"
+func positiveZero(f float64) float64 {
+	if f == 0 {
+		return 0
+	}
+	return f
 }
 
 // attributeCacheKey is used as a key for the attribute cache
@@ -1438,7 +1448,7 @@ func (ctx *RenderContext) evaluateBinaryOp(operator string, left, right interfac
 	case "*":
 		if lNum, lok := ctx.toNumber(left); lok {
 			if rNum, rok := ctx.toNumber(right); rok {
-				return lNum * rNum, nil
+				return positiveZero(lNum * rNum), nil
 			}
 		}
 
@@ -1448,7 +1458,7 @@ func (ctx *RenderContext) evaluateBinaryOp(operator string, left, right interfac
 				if rNum == 0 {
 					return nil, errors.New("division by zero")
 				}
-				return lNum / rNum, nil
+				return positiveZero(lNum / rNum), nil
 			}
 		}
 
@@ -1459,7 +1469,7 @@ func (ctx *RenderContext) evaluateBinaryOp(operator string, left, right interfac
 				if rNum == 0 {
 					return nil, errors.New("modulo by zero")
 				}
-				return math.Mod(lNum, rNum), nil
+				return positiveZero(math.Mod(lNum, rNum)), nil
 			}
 		}
 
